@@ -333,6 +333,7 @@ type c15Env struct {
 	lastKey    string
 	base       map[string]string // dump at the end of the setup
 	baseKey    string
+	resets     int
 }
 
 func (e *c15Env) acct() []*common.Address { a := e.Acct; return []*common.Address{&a} }
@@ -449,6 +450,7 @@ func (e *c15Env) reset(c *verifmc.Check) {
 		e.onChain[i] = map[crypto.Hash]bool{}
 	}
 	e.lastKey = e.baseKey
+	e.resets++
 }
 
 func c15TotalOf(d map[string]string, a crypto.Hash) *big.Int {
@@ -1190,6 +1192,11 @@ func c15PartHistories(c *verifmc.Check, name string, classes []string, maxSub, d
 		C: c, NumEvents: 3 * len(subs), MaxDepth: depth,
 		EventName: evName,
 		New: func(w int) *c15Env {
+			if envs[w] != nil && envs[w].resets >= 64 {
+				// bound the garbage (stale versions/tombstones) the resets leave in the in-memory DB
+				envs[w].L.Close()
+				envs[w] = nil
+			}
 			if envs[w] != nil {
 				envs[w].reset(c)
 				return envs[w]
@@ -1320,10 +1327,9 @@ func TestMC_C15(t *testing.T) {
 	c15PartLarge(c)
 	lap("large")
 	full := []string{"D", "T1", "W", "C", "M", "P", "P2", "N", "N2", "Xg", "U"}
-	small := []string{"D", "T1", "W", "C", "P", "Xg"}
 	if c.Thorough() {
 		c15PartHistories(c, "bfs_full_sub3_d2", full, 3, 2)
-		c15PartHistories(c, "bfs_small_sub2_d3", small, 2, 3)
+		c15PartHistories(c, "bfs_full_sub2_d3", full, 2, 3)
 	} else {
 		c15PartHistories(c, "bfs_full_sub2_d2", full, 2, 2)
 	}
